@@ -33,3 +33,18 @@ func init() {
 		return Val{T: sx(name, x.T, y.T), Ty: types.Typ[types.Int]}
 	}
 }
+
+func init() {
+	// sameobj(a, b): the pointers / slices a and b refer into the same allocated object
+	specFuncs["sameobj"] = func(sc *Scope, a []Val) Val {
+		loc := func(v Val) string {
+			if v.Ty != nil {
+				if _, ok := v.Ty.Underlying().(*types.Slice); ok {
+					return sx("sl_arr", v.T)
+				}
+			}
+			return v.T
+		}
+		return boolVal(eq(sx("ref", loc(a[0])), sx("ref", loc(a[1]))))
+	}
+}
